@@ -89,6 +89,7 @@ class Case:
         self.sig = None
         self.nontrivial = True
         self.maxerr = 0.0
+        self.therm = 0.0  # max relative disagreement of the object's m_dot, c_p, R_b* with the independent references
         self.skip = None
         self.cost_line = None
         self.wall = 0.0
@@ -145,6 +146,64 @@ def make_coords(rng, n):
     return pts
 
 
+# geometry the harness hands to the package (ghelib.media uses the same numbers)
+U_R_IN, U_R_OUT, U_S, PIPE_EPS = 0.03404 / 2, 0.04216 / 2, 0.01856, 1.0e-6
+COAX_R_IN, COAX_R_OUT = (0.0442 / 2, 0.050 / 2), (0.0974 / 2, 0.110 / 2)  # (inner pipe, outer pipe): inside radii, outside radii
+
+
+def coax_pipe_k(phys):
+    """(k of the inner pipe, k of the outer pipe); `pipe_k2` gives different ones."""
+    k2 = phys.get("pipe_k2")
+    return (float(k2[0]), float(k2[1])) if k2 else (phys["pipe_k"], phys["pipe_k"])
+
+
+def independent_thermal(cfg):
+    """m_dot, c_p and R_b* of the documented formula from the USER-LEVEL inputs, without the package:
+    fluid properties from pygfunction's secondary-coolant tables under the mixture code of pygfunction's own
+    documentation, m_dot = V_borehole/1000 * rho, and R_b* from pygfunction's own pipe classes fed with film
+    coefficients and wall conduction from pygfunction's helpers."""
+    import numpy as np
+    import pygfunction as gt
+
+    phys, kind = cfg["phys"], cfg["pipe"]
+    fl = ghelib.independent_fluid(phys)
+    mdot = phys["flow"] / 1000.0 * fl.rho
+    h, d, dia = phys["borehole"]
+    bore = gt.boreholes.Borehole(h, d, dia / 2.0, 0.0, 0.0)
+    k_s, k_g = phys["soil"][0], phys["grout"][0]
+    two_pi = 2.0 * math.pi
+    if kind == "COAXIAL":
+        f = min(1.0, dia / 0.14)
+        r_in_in, r_out_in = COAX_R_IN[0] * f, COAX_R_OUT[0] * f  # inside radii of inner / outer pipe
+        r_in_out, r_out_out = COAX_R_IN[1] * f, COAX_R_OUT[1] * f  # outside radii
+        k_in, k_out = coax_pipe_k(phys)
+        h_in = gt.pipes.convective_heat_transfer_coefficient_circular_pipe(mdot, r_in_in, fl.mu, fl.rho, fl.k, fl.cp, PIPE_EPS)
+        h_a_in, h_a_out = gt.pipes.convective_heat_transfer_coefficient_concentric_annulus(
+            mdot, r_in_out, r_out_in, fl.mu, fl.rho, fl.k, fl.cp, PIPE_EPS)
+        r_ff = (1.0 / (h_in * two_pi * r_in_in) + gt.pipes.conduction_thermal_resistance_circular_pipe(r_in_in, r_in_out, k_in)
+                + 1.0 / (h_a_in * two_pi * r_in_out))
+        r_fp = gt.pipes.conduction_thermal_resistance_circular_pipe(r_out_in, r_out_out, k_out) + 1.0 / (h_a_out * two_pi * r_out_in)
+        obj = gt.pipes.Coaxial((0, 0), np.array([r_in_in, r_out_in]), np.array([r_in_out, r_out_out]), bore, k_s, k_g, r_ff, r_fp)
+    else:
+        n_u = 1 if kind == "SINGLEUTUBE" else 2
+        m_pipe = mdot / 2.0 if kind == "DOUBLEUTUBEPARALLEL" else mdot
+        h_f = gt.pipes.convective_heat_transfer_coefficient_circular_pipe(m_pipe, U_R_IN, fl.mu, fl.rho, fl.k, fl.cp, PIPE_EPS)
+        r_fp = 1.0 / (h_f * two_pi * U_R_IN) + gt.pipes.conduction_thermal_resistance_circular_pipe(U_R_IN, U_R_OUT, phys["pipe_k"])
+        # axis-symmetric placement: U-tube i has its legs at angles pi + 2 i pi/n and pi + (2 i + 1) pi/n on the shank circle
+        rad, dt = U_S / 2.0 + U_R_OUT, math.pi / n_u
+        pos = []
+        for i in range(n_u):
+            pos += [(rad * math.cos(math.pi + 2 * i * dt), rad * math.sin(math.pi + 2 * i * dt)),
+                    (rad * math.cos(math.pi + (2 * i + 1) * dt), rad * math.sin(math.pi + (2 * i + 1) * dt))]
+        if n_u == 1:
+            obj = gt.pipes.SingleUTube(pos, U_R_IN, U_R_OUT, bore, k_s, k_g, r_fp)
+        else:
+            obj = gt.pipes.MultipleUTube(pos, U_R_IN, U_R_OUT, bore, k_s, k_g, r_fp, 2,
+                                         config="parallel" if kind == "DOUBLEUTUBEPARALLEL" else "series")
+    rb = float(obj.effective_borehole_thermal_resistance(mdot, fl.cp))
+    return {"rho": float(fl.rho), "cp": float(fl.cp), "mdot": float(mdot), "Rb": rb}
+
+
 def build(cfg):
     """A real GHE with a synthetic long-time g-function table (no pygfunction g-function call)."""
     from ghedesigner.gfunction import GFunction
@@ -155,6 +214,12 @@ def build(cfg):
     rng = random.Random(cfg["seed"])
     phys = cfg["phys"]
     fluid, pipe, grout, soil, borehole, bt = ghelib.media(phys, cfg["pipe"])
+    if cfg["pipe"] == "COAXIAL" and phys.get("pipe_k2"):  # inner and outer pipe of different materials
+        from ghedesigner.media import Pipe
+
+        f = min(1.0, phys["borehole"][2] / 0.14)
+        pipe = Pipe((0, 0), [COAX_R_IN[0] * f, COAX_R_IN[1] * f], [COAX_R_OUT[0] * f, COAX_R_OUT[1] * f], 0, PIPE_EPS,
+                    list(coax_pipe_k(phys)), phys["pipe_rho_cp"])
     n = cfg["N"]
     coords = make_coords(rng, n)
     lt = eskilson_log_times()
@@ -178,9 +243,42 @@ def build(cfg):
         ghe.hourly_extraction_ground_loads = [r_.uniform(-1, 1) * amp_ for _ in range(int(ln_))]
     truth = {
         "N": n, "H": h, "k": phys["soil"][0], "rhoCp": phys["soil"][1], "Tg": phys["soil"][2],
-        "mdot": v / 1000.0 * fluid.rho, "cp": fluid.cp,
+        "mdot": v / 1000.0 * fluid.rho, "cp": fluid.cp, "source": "object",
     }
+    try:  # m_dot, c_p, R_b* from the user-level inputs, independently of the package
+        truth["indep"] = independent_thermal(cfg)
+    except Exception as e:  # noqa: BLE001  (mixture outside pygfunction's table, ...)
+        truth["indep_error"] = f"{type(e).__name__}: {e}"[:200]
+    if cfg.get("indep", True) and "indep" in truth:
+        truth.update(mdot=truth["indep"]["mdot"], cp=truth["indep"]["cp"], Rb=truth["indep"]["Rb"], source="independent")
     return ghe, truth
+
+
+THERM_TOL = 1e-10  # the unchanged code agrees with the references to 2e-15 (measured; the value of every run is in the evidence)
+
+
+def check_thermal(c, cfg, truth, p):
+    """The object's m_flow_borehole, fluid c_p and calc_effective_borehole_resistance() against the references."""
+    ind = truth.get("indep")
+    if ind is None:
+        c.count("thermal-inputs:no-reference:" + truth.get("indep_error", "?").split(":")[0])
+        return
+    c.count("thermal-inputs:compared")
+    c.count("formula-inputs-from:" + truth["source"])
+    fl = cfg["phys"]["fluid"]
+    c.count(f"fluid:{fl[0]}" + ("" if fl[1] == 0 else ":mixture") + ("" if cfg["phys"].get("fluid_temp", 20.0) == 20.0 else ":T!=20"))
+    if cfg["pipe"] == "COAXIAL":
+        ki, ko = coax_pipe_k(cfg["phys"])
+        c.count("coaxial:k_inner" + ("=" if ki == ko else "<" if ki < ko else ">") + "k_outer")
+    for key, name in (("mdot", "m_flow_borehole"), ("cp", "fluid.cp"), ("Rb", "calc_effective_borehole_resistance()")):
+        rel = abs(p[key] - ind[key]) / abs(ind[key])
+        c.therm = max(c.therm, rel)
+        if rel > THERM_TOL:
+            c.fail.append(("thermal-inputs", f"{cfg['pipe']} with {fl[0]} {fl[1]} % at {cfg['phys'].get('fluid_temp', 20.0)} C, pipe k "
+                           f"{coax_pipe_k(cfg['phys']) if cfg['pipe'] == 'COAXIAL' else cfg['phys']['pipe_k']}: the object's {name} = {p[key]!r}, "
+                           f"the user-level inputs give {ind[key]!r} (pygfunction tables / pipe classes), relative difference {rel:.2e}",
+                           {"cfg": {k: v for k, v in cfg.items() if k != "loads"}, "object": {k: p[k] for k in ("mdot", "cp", "Rb")}, "independent": ind}))
+            return
 
 
 def obj_params(ghe):
@@ -313,6 +411,7 @@ def run_det(cfg):
         return np.array(rows[i])
 
     p = obj_params(ghe)
+    check_thermal(c, cfg, truth, p)
     c.line = f"sup.det {pline(p)} {rl(q)} {rl(t)} {rl(v for r in rows for v in r)}"
     try:
         with warnings.catch_warnings():
@@ -339,7 +438,7 @@ def run_det(cfg):
         c.fail.append(("det-g-call-shape", "g was not called once per step with i lags", {}))
     # predicate: the formula with this G, from the inputs the harness chose
     if c.impl[0] == "ok":
-        rb = p["Rb"]
+        rb = truth.get("Rb", p["Rb"])
         o = Oracle(truth, rb, [0.0, 1.0], [0.0, 0.0], q, t[:n] if tlen >= n else t + [0.0] * (n - tlen))
         for i in range(1, n + 1):
             want, wd, sa = o.step(i, rows[i - 1])
@@ -452,13 +551,15 @@ def run_hyb(cfg):
                 return c
             c.impl = ("raise", "ValueError")
     p = obj_params(ghe)
+    check_thermal(c, cfg, truth, p)
     g, _ = ghe.grab_g_function(ghe.B_spacing / float(ghe.bhe.b.H))
     gx, gy = [float(v) for v in g.x], [float(v) for v in g.y]
     gfun = interp_fun(gx, gy)
     q = [float(v) * 1000.0 for v in load0[2:]]
     t = [float(v) for v in hour0[2:]]
     n = len(q)
-    c.sig = ("hyb", cfg["pipe"], cfg["N"], cfg["m1"], cfg.get("profile"), str(cfg.get("inject")), cfg["seed"])
+    c.sig = ("hyb", cfg["pipe"], cfg["N"], cfg["m1"], cfg.get("profile"), str(cfg.get("inject")), cfg["seed"],
+             str(cfg["phys"]["fluid"]), cfg["phys"].get("fluid_temp"), str(cfg["phys"].get("pipe_k2")))
     c.count(f"hyb:pipe:{cfg['pipe']}")
     c.count("hyb:N:" + ("1" if cfg["N"] == 1 else "2-9" if cfg["N"] < 10 else "10-99" if cfg["N"] < 100 else "100-400"))
     c.count("hyb:steps:" + ("<=40" if n <= 40 else "41-100" if n <= 100 else ">100"))
@@ -489,7 +590,7 @@ def run_hyb(cfg):
         return c
     if list(ghe.times) != t or [float(v) for v in ghe.loading] != q:
         c.fail.append(("hyb-bookkeeping", "GHE.times / GHE.loading are not the simulated axis / loads", replay))
-    o = Oracle(truth, p["Rb"], gx, gy, q, t)
+    o = Oracle(truth, truth.get("Rb", p["Rb"]), gx, gy, q, t)
     if abs(o.ts - p["ts"]) > 1e-9 * p["ts"]:
         c.fail.append(("hyb-ts", f"characteristic time {p['ts']!r} is not H^2/(9 alpha) = {o.ts!r}", replay))
     _check_formula(c, o, eft, dtb, c.steps, "hybrid", replay)
@@ -589,6 +690,7 @@ def run_hr(cfg):
             return c
         c.impl = ("raise", "ValueError")
     p = obj_params(ghe)
+    check_thermal(c, cfg, truth, p)
     g, _ = ghe.grab_g_function(ghe.B_spacing / float(ghe.bhe.b.H))
     gx, gy = [float(v) for v in g.x], [float(v) for v in g.y]
     gfun = interp_fun(gx, gy)
@@ -614,7 +716,7 @@ def run_hr(cfg):
         except ValueError:
             c.skip = "g-table-range"
             return c
-        o = Oracle(truth, p["Rb"], gx, gy, q, t)
+        o = Oracle(truth, truth.get("Rb", p["Rb"]), gx, gy, q, t)
         _check_formula(c, o, eft, dtb, c.steps, "hourly", replay)
         _check_sign(c, o, eft, c.steps, q, "hourly", replay)
         if (mx, mn) != (max(eft), min(eft)):
@@ -697,6 +799,12 @@ def rand_phys(rng, wide=True):
         p["flow"] = round(rng.uniform(0.03, 0.15), 3)  # low flow: the F11 regime
     elif r < 0.35:
         p["flow"] = round(rng.uniform(0.8, 2.0), 3)
+    # every fluid of the enum, at non-zero concentrations and at non-default temperatures
+    if rng.random() < 0.6:
+        name = rng.choice(["PropyleneGlycol", "EthyleneGlycol", "MethylAlcohol", "MethylAlcohol", "EthylAlcohol", "Water"])
+        p["fluid"] = (name, 0.0 if name == "Water" else round(rng.uniform(5.0, 40.0), 1))
+        if rng.random() < 0.5:
+            p["fluid_temp"] = rng.choice([5.0, 10.0, 35.0, round(rng.uniform(2.0, 40.0), 1)])
     return p
 
 
@@ -719,6 +827,9 @@ def base_cfg(rng, kind):
            "a": rng.choice([2.0, -1.0, 0.5, -3.5, round(rng.uniform(-4, 4), 3)]), "d": rng.choice([1.0, -7.25, round(rng.uniform(-15, 15), 2)])}
     if pipe == "COAXIAL" and cfg["phys"]["flow"] < 0.15:
         cfg["phys"]["flow"] = round(rng.uniform(0.2, 0.8), 3)  # F10: low-flow coaxial has no equivalent U-tube
+    if pipe == "COAXIAL" and rng.random() < 0.7:  # insulated inner pipe / enhanced outer pipe / poor outer pipe
+        cfg["phys"]["pipe_k2"] = rng.choice([(0.1, 0.4), (0.4, 0.6), (0.6, 0.2), (round(rng.uniform(0.1, 0.6), 2), round(rng.uniform(0.2, 0.6), 2))])
+    cfg["indep"] = rng.random() < 0.75  # formula fed with the independent m_dot, c_p, R_b* (else with the object's)
     return cfg
 
 
@@ -946,7 +1057,8 @@ def run(ctx: core.Ctx):
         "translator translate/gen_superpose.py (constants and statement shapes of GHE.simulate / _simulate_detailed) and translate/gen.py (BaseGHE.cost, SEC_IN_HR)",
         "hand-written model Model/Superpose.lean, tied to the code by the det/hyb/hr differential streams",
         "g(ln(.)) enters as a parameter: the harness evaluates it with math.log and its own linear interpolation of the table interp1d holds",
-        "pygfunction effective_borehole_thermal_resistance, fluid properties: parameters (read from the object)",
+        "pygfunction's secondary-coolant tables, film-coefficient / wall-conduction helpers and pipe classes (effective_borehole_thermal_resistance): the "
+        "references for m_dot, c_p, R_b* are built from them out of the user-level inputs, without the package's GHEFluid / pipe classes",
         "numpy float rounding within 1e-9 relative (+1e-13 x sum of |terms|) of the exact rational value",
     ]
     ctx.assumptions += [
@@ -1005,6 +1117,7 @@ def run(ctx: core.Ctx):
         ctx.case(c.sig, nontrivial, sample)
         ctx.count("outcome:" + c.cfg["kind"] + ":" + (c.impl[0] if c.impl[0] == "ok" else c.impl[1]))
         ctx.extra["max_rel_error_vs_formula"] = max(ctx.extra.get("max_rel_error_vs_formula", 0.0), c.maxerr)
+        ctx.extra["max_rel_disagreement_mdot_cp_Rb_vs_independent"] = max(ctx.extra.get("max_rel_disagreement_mdot_cp_Rb_vs_independent", 0.0), c.therm)
         for key, what, rep in c.fail:
             ctx.finding(key, what, dict(rep, cfg=c.cfg, how_to_replay="./check C09 --replay <this file>"))
         if c.line:
